@@ -31,6 +31,7 @@ def run(ck):
     r6_pi_types(ck, w)
     r7_encoding(ck, w)
     r8_partial(ck, w)
+    r9_looped(ck, w)
 
 
 def enum_variants(w, nid):
@@ -653,3 +654,26 @@ def r8_partial(ck, w):
                 rec(c, conds)
         rec(f['body'], [])
     ck.count('C18.R8:partial sites', n_sites)
+
+
+def r9_looped(ck, w):
+    from . import dprops
+    ck.rule('C18.R9', 'per-element checks of the in-circuit operations (rules/looped.json, zkir rows): each listed operation still applies the listed constraint to every '
+                      'element of its iteration, and the iteration domain is not narrowed by an added take / skip / filter / sub-range (e.g. the zero bytes '
+                      'beyond the requested width in IntoBytes); declared integer bounds still reach their checks by value (rules/boundflow.json, zkir rows)')
+    rows = [r for r in dprops.load_rules('looped.json') if r['property'] == 'C18']
+    for r in rows:
+        f = w.fn_x(r['fn'], required=False)
+        if f is None:
+            ck.bad('C18.R9', f'{r["fn"]}:anchor', f'function {r["fn"]} of the looped-check table not found (needs triage)')
+            continue
+        dprops.eval_looped_row(ck, 'C18.R9', f, r)
+    ck.floor('C18.R9', 'looped rows', len(rows), 3)
+    for r in [r for r in dprops.load_rules('boundflow.json') if r['property'] == 'C18']:
+        f = w.fn_x(r['fn'], required=False)
+        if f is None:
+            ck.bad('C18.R9', f'{r["fn"]}:anchor', f'function {r["fn"]} of the bound-flow table not found (needs triage)')
+            continue
+        ok = (r['param'], r['reaches']) in dprops.bound_flows(f)
+        ck.record('C18.R9', f'{r["fn"]}|{r["param"]}|{dprops.short(r["reaches"])}', ok, f'`{r["param"]}` reaches {dprops.short(r["reaches"])} by value',
+                  f'{r["fn"]}: the declared bound `{r["param"]}` no longer reaches {r["reaches"]} by value')
